@@ -31,8 +31,9 @@ WF(H, n) ==
     [] n = 9 -> \A i \in Ids : E[i].naug = 0
     [] n = 10 -> H.errs = 0 => \A i \in Ids : E[i].nerrs = 0                                  \* no hidden errors
     [] n = 11 -> \A i \in Ids : Cardinality(DirIds(E[i])) = Len(E[i].dir)                      \* no object filed twice in one map
+    [] n = 12 -> \A i, j \in Ids : (i # j /\ E[i].extra # 0) => E[i].extra # E[j].extra      \* no annotation map shared by two objects
     [] OTHER -> TRUE
-NConj == 11
+NConj == 12
 FirstBad(H) == IF \A n \in 1..NConj : WF(H, n) THEN 0 ELSE CHOOSE n \in 1..NConj : ~WF(H, n) /\ \A k \in 1..(n-1) : WF(H, k)
 THeap == /\ l <= Len(Trace) /\ Ev.ev = "heap" /\ ~rejected /\ FirstBad(Ev) = 0
          /\ l' = l + 1 /\ UNCHANGED <<tid, rejected>>
